@@ -19,7 +19,7 @@ R = [
  ("gvariant::de::ArrayDeserializer::<'d, 'de, 'sig, 'f, F>::element_end", "panic", "assert_eq!", "ArrayDeserializer of the gvariant module is only built by the GVariant deserializer (ctxt copied from it)", False),
  # ---- D-Bus decoder
  ("dbus::de::Deserializer<'de, '_, '_, F> as serde_core::de::Deserializer<'de>>::deserialize_u8::{closure#0}", "bounds", "bytes[0]", "slice comes from next_const_size_slice::<u8>() = next_slice(1): length 1", False),
- ("dbus::de::Deserializer<'de, '_, '_, F> as serde_core::de::Deserializer<'de>>::deserialize_str", "bounds", "[0]", "len_slice comes from next_slice(1): length 1", False),
+ ("dbus::de::Deserializer<'de, '_, '_, F> as serde_core::de::Deserializer<'de>>::deserialize_str", "bounds", "[0]", "len_slice / the terminator byte come from next_slice(1): length 1", False, 2),
  ("dbus::de::ArrayDeserializer::<'d, 'de, 'sig, 'f, F>::next", "overflow-sub", "Sub(self.de.0.pos,self.start)", "inside the `pos > start + len` error branch, so pos > start", True),
  ("dbus::de::StructureDeserializer::<'d, 'de, 'sig, 'f, F>::new", "panic", "unreachable!", "only called from deserialize_seq/deserialize_tuple after matching Signature::Structure", False),
  ("dbus::de::StructureDeserializer<'_, 'de, '_, '_, F> as serde_core::de::SeqAccess<'de>>::next_element_seed", "panic", "unreachable!", "the signature was matched as Structure when the StructureDeserializer was built and is not changed in between", False),
